@@ -61,6 +61,13 @@ def h_dispatch(ctx, entry, n, have_sgio, have_iscsi, read_write, explicit_initia
     E = env.ENV
     import pyscsi.utils as U
     dev = ctx.str("device", n)
+    E.lun = ctx.int("lun", 16)
+    node_absent = bool(ctx.choose("node", ["exists", "absent"]))
+    open_refused = bool(ctx.choose("open", ["granted", "refused"]))
+    if node_absent:
+        E.cur_inode = None
+    if open_refused:
+        E.open_error = PermissionError(13, "Permission denied (stub)")
     # an explicit initiator name: any non-empty string (symbolic characters), not only iqn. names
     init = ctx.str("initiator", 5) if explicit_initiator else None
     if entry == "init_device":
@@ -80,8 +87,17 @@ def h_dispatch(ctx, entry, n, have_sgio, have_iscsi, read_write, explicit_initia
         if st == "exc":
             ctx.check("refused with NotImplementedError", type(r) is NotImplementedError, repr(r))
         ctx.check("refusal happens before any file is opened", len(E.opens) == ctx.oracle(0))
+        ctx.check("refusal happens before the file system is touched at all (no stat either)",
+                  not [e for e in E.log if e[0] in ("open", "stat")])
         ctx.check("refusal happens before any iSCSI context / URL / connection is made",
                   len(E.iscsi_contexts) + len(E.iscsi_urls) == ctx.oracle(0))
+        return
+    if want == "sgio" and (node_absent or open_refused):
+        # the operating system refuses the open: the error reaches the caller, after exactly one attempt in the right mode
+        ctx.check("an open() failure is reported to the caller", ctx.oracle(st == "exc" and isinstance(r, OSError)), repr(r))
+        ctx.check("exactly one open attempt, on the requested path, in the requested mode",
+                  len(E.opens) == 1 and E.opens[0][0] is dev and E.opens[0][1] == ctx.oracle("w+b" if read_write else "rb"),
+                  repr(E.opens))
         return
     ctx.check("a device object is returned", ctx.oracle(st == "ok"), repr(r))
     if st != "ok":
@@ -102,7 +118,10 @@ def h_dispatch(ctx, entry, n, have_sgio, have_iscsi, read_write, explicit_initia
         elif explicit_initiator:
             ctx.check("the explicit initiator name is used", c.initiator_name is init, repr(c.initiator_name))
         ctx.check("URL built from exactly the requested string", E.iscsi_urls[0].url is dev)
-        ctx.check("connected exactly once", len([x for x in c.calls if x[0] == "connect"]) == ctx.oracle(1))
+        conn = [x for x in c.calls if x[0] == "connect"]
+        ctx.check("connected exactly once", len(conn) == ctx.oracle(1))
+        u = E.iscsi_urls[0]
+        ctx.check("connected to the portal and logical unit of the requested URL", bool(conn) and conn[0][1] is u.portal and conn[0][2] is u.lun)
         ctx.check("no file opened", len(E.opens) == 0)
 
 
